@@ -1266,17 +1266,17 @@ class Fxp():
     def __int__(self):
         if self.size > 1:
             raise TypeError('only length-1 arrays can be converted to Python scalars')
-        return int(self.astype(int))
+        return int(np.asarray(self.astype(int)).item())      # (the one element, whatever the number of dimensions)
 
     def __float__(self):
         if self.size > 1:
             raise TypeError('only length-1 arrays can be converted to Python scalars')
-        return float(self.astype(float))
+        return float(np.asarray(self.astype(float)).item())      # (the one element, whatever the number of dimensions)
 
     def __complex__(self):
         if self.size > 1:
             raise TypeError('only length-1 arrays can be converted to Python scalars')
-        return complex(self.astype(complex))
+        return complex(np.asarray(self.astype(complex)).item())      # (the one element, whatever the number of dimensions)
     
     # representation
     
